@@ -615,6 +615,120 @@ pub fn run(cx: &mut Cx) {
         Ok(())
     });
 
+    // ================================================================ nettable_ext.rs / udp_indexmap.rs (widened)
+    cx.check("nettable_ext.rs::IndexMap::keys", |rng| {
+        let m = gen_map(rng);
+        let s = obs(&m)?;
+        let ks: Vec<K> = m.keys().copied().collect();
+        ensure!(ks == s.iter().map(|e| e.0).collect::<Vec<K>>(), "keys() = {ks:?} on {s:?}");
+        Ok(())
+    });
+    cx.want(&["true", "false"]).check("nettable_ext.rs::Keys::any", |rng| {
+        let m = gen_map(rng);
+        let s = obs(&m)?;
+        let p = pred(rng);
+        let r = m.keys().any(|k| p(k));
+        hit(if r { "true" } else { "false" });
+        ensure!(r == s.iter().any(|e| p(&e.0)), "keys().any = {r} on {s:?}");
+        Ok(())
+    });
+    // retain with a closure that MUTATES the values: im_retain_by(old, new, rel) for the relation the closure's
+    // contract gives: rel(k, v, v2, b) <==> v2 == g(k, v) && b == keep(k, v)
+    cx.want(&["dropped", "kept", "all-dropped"]).check("nettable_ext.rs::IndexMap::retain (im_retain_by, value-mutating closure)", |rng| {
+        fn im_retain_by(o: &[(K, V)], n: &[(K, V)], g: &dyn Fn(K, V) -> V, keep: &dyn Fn(K, V) -> bool) -> bool {
+            match o.split_last() {
+                None => n.is_empty(),
+                Some((&(k, v), o_rest)) => {
+                    // exists v2. rel(k, v, v2, false)   <==>  !keep(k, v)
+                    (!keep(k, v) && im_retain_by(o_rest, n, g, keep))
+                        || match n.split_last() {
+                            Some((&(k2, v2), n_rest)) => k2 == k && v2 == g(k, v) && keep(k, v) && im_retain_by(o_rest, n_rest, g, keep),
+                            None => false,
+                        }
+                }
+            }
+        }
+        let mut m = gen_map(rng);
+        let pre = obs(&m)?;
+        let p = pred(rng);
+        let add = rng.u32() % 7;
+        let on_value = rng.bool();
+        let g = move |k: K, v: V| v.wrapping_mul(3).wrapping_add(add + k as u32);
+        let keep = move |k: K, v: V| if on_value { p(&(v as u8)) } else { p(&k) };
+        m.retain(|k, v| {
+            let b = keep(*k, *v);
+            *v = g(*k, *v);
+            b
+        });
+        let post = obs(&m)?;
+        if post.len() < pre.len() {
+            hit("dropped");
+        }
+        if !post.is_empty() {
+            hit("kept");
+        } else if !pre.is_empty() {
+            hit("all-dropped");
+        }
+        ensure!(im_retain_by(&pre, &post, &g, &keep), "retain: {pre:?} -> {post:?} is not a retain-image under the closure's relation");
+        Ok(())
+    });
+    cx.want(&["present", "absent"]).check("nettable_ext.rs::IndexMap::entry + Entry<K, Vec<T>>::or_default", |rng| {
+        let mut m: IndexMap<K, Vec<u32>> = gen_map_with(rng, |r| (0..r.range(0, 3)).map(|_| r.u32() % 100).collect());
+        let pre = obs(&m)?;
+        let k = pick_key(rng, &m);
+        hit(if im_has(&pre, k) { "present" } else { "absent" });
+        {
+            let r = m.entry(k).or_default();
+            if im_has(&pre, k) {
+                ensure!(*r == im_get(&pre, k), "or_default on present key {k}: {r:?} vs {pre:?}");
+            } else {
+                ensure!(r.is_empty(), "or_default on absent key {k} is not empty: {r:?}");
+            }
+            r.push(rng.u32() % 100);
+        }
+        let post = obs(&m)?;
+        let exp = im_upsert(&pre, k, m.get(&k).cloned().ok_or("key absent after or_default")?);
+        ensure!(post == exp, "entry({k}).or_default(): {pre:?} -> {post:?}, spec {exp:?}");
+        Ok(())
+    });
+    cx.check("udp_indexmap.rs::IndexMap::iter", |rng| {
+        let m = gen_map(rng);
+        let via_index: Vec<(K, V)> = (0..m.len()).map(|i| m.get_index(i).map(|(k, v)| (*k, *v)).unwrap()).collect();
+        let got: Vec<(K, V)> = m.iter().map(|(k, v)| (*k, *v)).collect();
+        ensure!(got == via_index, "iter() = {got:?}, positions = {via_index:?}");
+        Ok(())
+    });
+    cx.check("udp_indexmap.rs::IndexMap::retain (predicate on (key, value), values untouched)", |rng| {
+        let mut m = gen_map_with(rng, |r| r.u32() % 16);
+        let pre = obs(&m)?;
+        let p = pred(rng);
+        let pk = move |kv: &(K, V)| p(&kv.0.wrapping_add(kv.1 as u8));
+        m.retain(|k, v| pk(&(*k, *v)));
+        let post = obs(&m)?;
+        let exp = seq_filter_by(&pre, &pk);
+        ensure!(post == exp, "retain: {pre:?} -> {post:?}, seq_filter_by = {exp:?}");
+        Ok(())
+    });
+    cx.check("udp_indexmap.rs::MapIter::{filter, map} + SIter::collect", |rng| {
+        let m = gen_map_with(rng, |r| r.u32() % 16);
+        let s = obs(&m)?;
+        let p = pred(rng);
+        let pk = move |kv: &(K, V)| p(&kv.0.wrapping_add(kv.1 as u8));
+        let g = |k: &K, v: &V| (*k as u32) * 1000 + *v;
+        // filter alone
+        let f: Vec<(K, V)> = m.iter().filter(|(k, v)| pk(&(**k, **v))).map(|(k, v)| (*k, *v)).collect();
+        let exp_f = seq_filter_by(&s, &pk);
+        ensure!(f == exp_f, "iter().filter(p) = {f:?}, seq_filter_by = {exp_f:?}");
+        // map alone: one result per item, in order
+        let mp: Vec<u32> = m.iter().map(|(k, v)| g(k, v)).collect();
+        ensure!(mp.len() == s.len() && (0..s.len()).all(|i| mp[i] == g(&s[i].0, &s[i].1)), "iter().map(g) = {mp:?} on {s:?}");
+        // the chain turmoil writes
+        let chain: Vec<u32> = m.iter().filter(|(k, v)| pk(&(**k, **v))).map(|(k, v)| g(k, v)).collect();
+        let exp: Vec<u32> = exp_f.iter().map(|e| g(&e.0, &e.1)).collect();
+        ensure!(chain == exp, "iter().filter(p).map(g).collect() = {chain:?}, spec {exp:?}");
+        Ok(())
+    });
+
     // ================================================================ IndexSet
     fn gen_set(rng: &mut Rng) -> IndexSet<u8> {
         let mut s = IndexSet::new();
@@ -737,6 +851,16 @@ pub fn run(cx: &mut Cx) {
     });
     cx.check("udp_indexmap.rs::<IndexSet as Default>::default", |_| {
         ensure!(sobs(&IndexSet::<u8>::default())?.is_empty(), "default() not empty");
+        Ok(())
+    });
+    cx.check("udp_indexmap.rs::IndexSet::into_iter (as the Vec of the elements, `for` position)", |rng| {
+        let s = gen_set(rng);
+        let v = sobs(&s)?;
+        let mut got = vec![];
+        for x in s {
+            got.push(x);
+        }
+        ensure!(got == v, "for x in set yields {got:?}, view {v:?}");
         Ok(())
     });
     cx.check("fs_indexset.rs::IndexSet::into_iter + IndexSetIntoIter::collect", |rng| {
